@@ -471,16 +471,15 @@ def flag_of(vec, n) -> str:
     if a['nilled']:
         return 'nil'
     if nd['s'] == 'kid':
+        if not nd['lx'] and tuple(vec['sdef']['kids'][nd['i'] - 1]) != NOLEX and a['tv'] != NOVALUE:
+            return 'default'            # EffText of the spec: empty content and the declaration has a default
         if any(x['s'] == 'xtype' and x['par'] == n for x in vec['f']):
             return 'xsitype'
-        if not nd['lx'] and a['tv'] and a['tv'] != NOVALUE and a['ty'] != 'string':
-            return 'default'
-        if not nd['lx'] and a['ty'] == 'string' and a['tv'] and a['tv'][0].get('s'):
-            return 'default'
     return 'plain'
 
 
 NOVALUE = (tla.FrozenDict(t='#novalue'),)
+NOLEX = ('#none',)
 
 
 def find_nodes(ctx_root, doc: Doc, read_attrs=True) -> dict:
@@ -1101,6 +1100,13 @@ def run(chk: core.Check) -> None:
                                  invariants=['RefElems'])
         r = tla.run_tlc('MC_Walk_coded', cfg, wd, workers=2, extra_modules_dir=gen, timeout=300)
         chk.coverage['coded_guard_refuted_by_tlc'] = (r.violated == 'RefElems')
+        # the first-particle match, as a law: TLC must refute DeclSound when two particles share a name
+        small = dict(KidMenu={kd('int', 1, 1, False, True), kd('int', 0, 1)}, AttrMenu=set())
+        sub = mc_module('SchemaWalk', 'MC_Walk_decl', small, gen)
+        cfg = sub + tla.cfg_text(dict(MinKids=3, MaxKids=3, MaxAtts=0, LexCap=1, XsiOn=False, RetypeTo={'string'}, Guard='typed'),
+                                 invariants=['DeclSound'])
+        r = tla.run_tlc('MC_Walk_decl', cfg, os.path.join(chk.scratch, 'walk-decl'), workers=2, extra_modules_dir=gen, timeout=300)
+        chk.coverage['first_match_declaration_refuted_by_tlc'] = (r.violated == 'DeclSound')
     # ---- SchemaSelect
     for run_, r in zip(runs, tlc_results):
         kind, name, N, mod, cfg, wd = run_
